@@ -1,52 +1,41 @@
 #!/usr/bin/env python3
-"""Apply every seeded change under /verif/seeded/<id>/ to /repo (working tree only), run the property's check, record which
-rule instances report it, and undo the change.  Usage: tools/run_seeds.py [id ...]
-Writes seeded/<id>/detected.json and prints a summary table.  Never commits anything in /repo."""
+"""Apply every seeded change under /verif/seeded/<id>/ to a scratch export of /repo's HEAD, run the property's check against it
+(--repo), record which rule instances report it, and remove the scratch copy.  Usage: tools/run_seeds.py [-jN] [id ...]
+Writes seeded/<id>/detected.json and prints a summary.  /repo is never touched."""
 import json
 import os
-import re
-import subprocess
 import sys
+from concurrent.futures import ThreadPoolExecutor
 
-VERIF = os.path.dirname(os.path.dirname(os.path.abspath(__file__)))
-REPO = "/repo"
+sys.path.insert(0, os.path.dirname(os.path.abspath(__file__)))
+from patchrun import VERIF, with_patch
 
 
-def sh(cmd, cwd=None):
-    return subprocess.run(cmd, cwd=cwd, shell=True, stdout=subprocess.PIPE, stderr=subprocess.STDOUT, text=True)
+def one(sid):
+    d = os.path.join(VERIF, "seeded", sid)
+    if not os.path.isfile(os.path.join(d, "patch.diff")):
+        return None
+    meta = json.load(open(os.path.join(d, "meta.json")))
+    prop = meta["property"]
+    reb = os.path.join(d, "patch.rebased.diff")
+    patch = reb if os.path.exists(reb) else os.path.join(d, "patch.diff")
+    applied, out = with_patch(patch, [prop])
+    how = ("rebased" if patch.endswith("rebased.diff") else "clean") if applied else None
+    res = {"seed": sid, "property": prop, "applied": how, "violations": out.get(prop, (None, []))[1], "exit": out.get(prop, (None, []))[0]}
+    with open(os.path.join(d, "detected.json"), "w") as f:
+        json.dump(res, f, indent=1)
+    print("%-7s %-4s applied=%-5s exit=%s  %s" % (sid, prop, how, res["exit"], "; ".join(v.split(":")[0] + ":" + v.split(":")[-1][:40] for v in res["violations"][:3])), flush=True)
+    return res
 
 
 def main():
-    ids = sys.argv[1:] or sorted(os.listdir(os.path.join(VERIF, "seeded")))
-    if sh("git status --porcelain --untracked-files=no", REPO).stdout.strip():
-        print("refusing: /repo has uncommitted changes")
-        return 2
-    rows = []
-    for sid in ids:
-        d = os.path.join(VERIF, "seeded", sid)
-        if not os.path.isfile(os.path.join(d, "patch.diff")):
-            continue
-        meta = json.load(open(os.path.join(d, "meta.json")))
-        prop = meta["property"]
-        patch = os.path.join(d, "patch.rebased.diff") if os.path.exists(os.path.join(d, "patch.rebased.diff")) else os.path.join(d, "patch.diff")
-        applied = sh("git apply --check %s" % patch, REPO).returncode == 0 and sh("git apply %s" % patch, REPO).returncode == 0
-        how = ("rebased" if patch.endswith("rebased.diff") else "clean") if applied else None
-        res = {"seed": sid, "property": prop, "applied": how, "violations": [], "exit": None}
-        if applied:
-            c = sh("./check %s --tier quick" % prop, VERIF)
-            res["exit"] = c.returncode
-            for line in c.stdout.splitlines():
-                m = re.match(r"^  ((?:R|BUILD|ANCHOR|INTERNAL)[\w.\-]*:.*?): ", line)
-                if m:
-                    res["violations"].append(m.group(1)[:200])
-            sh("git checkout -- .", REPO)
-            if sh("git status --porcelain --untracked-files=no", REPO).stdout.strip():
-                print("!! could not undo", sid)
-                return 3
-        with open(os.path.join(d, "detected.json"), "w") as f:
-            json.dump(res, f, indent=1)
-        rows.append(res)
-        print("%-7s %-4s applied=%-5s exit=%s  %s" % (sid, prop, how, res["exit"], "; ".join(v.split(":")[0] + ":" + v.split(":")[-1][:40] for v in res["violations"][:3])))
+    args = sys.argv[1:]
+    jobs = 3
+    if args and args[0].startswith("-j"):
+        jobs = int(args.pop(0)[2:])
+    ids = args or sorted(os.listdir(os.path.join(VERIF, "seeded")))
+    with ThreadPoolExecutor(jobs) as ex:
+        rows = [r for r in ex.map(one, ids) if r]
     missed = [r["seed"] for r in rows if r["applied"] and r["exit"] == 0]
     noapply = [r["seed"] for r in rows if not r["applied"]]
     print("detected %d / %d applied; missed: %s; did not apply: %s" % (sum(1 for r in rows if r["applied"] and r["exit"] == 1), sum(1 for r in rows if r["applied"]), missed, noapply))
